@@ -75,6 +75,13 @@ var skels = []skel{
 	{"render-value", "str", func(h *E, _ Ident) *Program {
 		return Query("T", &Op{K: "render", Name: Ident{Name: "barchart"}, With: true, Props: []Prop{{Name: Ident{Name: "title"}, Val: h}}})
 	}},
+	{"render-among-others", "str", func(h *E, _ Ident) *Program {
+		// the literal sits between properties whose values are not literals: it
+		// must reach exactly its own column (checked by occurrence count below)
+		return Query("T", &Op{K: "render", Name: Ident{Name: "linechart"}, With: true, Props: []Prop{
+			{Name: Ident{Name: "ymin"}, Val: Un("-", Num("1"))}, {Name: Ident{Name: "title"}, Val: h}, {Name: Ident{Name: "ymax"}, Val: Un("-", Num("5"))},
+			{Name: Ident{Name: "legend"}, Val: Call("strcat", Name("x"), Name("y"))}, {Name: Ident{Name: "kind"}, Val: Name("stacked")}}})
+	}},
 	{"let", "str", func(h *E, _ Ident) *Program {
 		return &Program{Stmts: []*Stmt{{LetName: idp("v"), LetX: h}, {Pipe: &Pipe{Table: Ident{Name: "T"}, Ops: []*Op{{K: "where", X: Bin("==", Name("a"), Name("v"))}}}}}}
 	}},
@@ -612,6 +619,19 @@ func Check(c *Case, r *mon.R) {
 		}
 		if !same {
 			r.Violation("", "content %q at the %s hole of %q does not reach the output: %s", c.Fill, c.Skel, got.src, got.sql)
+			return
+		}
+	}
+	if c.Skel == "render-among-others" && len(c.Fill) >= 2 {
+		// exactly the corresponding token and nothing else: one occurrence
+		n := 0
+		for _, t := range sqlmini.Lex(got.sql, sqlmini.ClickHouse) {
+			if t.Kind == sqlmini.TStr && t.Val == c.Fill {
+				n++
+			}
+		}
+		if n != 1 {
+			r.Violation("", "content %q at the %s hole of %q appears in %d string tokens of the output, it belongs to one: %s", c.Fill, c.Skel, got.src, n, got.sql)
 			return
 		}
 	}
